@@ -106,6 +106,30 @@ def gen_attack_modules(tier):
                     "    pub fn attack() { %s }\n}\n" % (n, vis_txt, use))
             out.append(("k%d" % n, text, vis == "priv", {"shape": "visibility", "vis": vis, "attack": "name_" + what, "legal": vis != "priv"}))
             n += 1
+    return out + gen_foreign_attr_modules()
+
+
+def gen_foreign_attr_modules():
+    """attributes below #[nutype(..)] that would let rustc's own derives (which see the private
+    field) build the type without the guards; a doc comment is the legal twin"""
+    out = []
+    n = 0
+    cases = [("foreign_derive_default", "#[derive(Default)]", "let x = T::default();", False),
+             ("foreign_pathed_derive_default", "#[::core::prelude::v1::derive(Default)]", "let x = T::default();", False),
+             ("foreign_core_derive_default", "#[core::prelude::rust_2021::derive(Default)]", "let x = T::default();", False),
+             ("foreign_derive_deserialize", "#[derive(serde::Deserialize)]", "let x: T = serde_json::from_str(\"0\").unwrap();", False),
+             ("foreign_pathed_derive_deserialize", "#[::serde::Deserialize]", "let x = 0;", False),
+             ("foreign_cfg_attr_derive", "#[cfg_attr(all(), derive(Default))]", "let x = T::default();", False),
+             ("legal_doc_comment", "/// a documented newtype", "let x = T::try_new(5).unwrap();", True),
+             ("legal_doc_attribute", "#[doc = \"a documented newtype\"]", "let x = T::try_new(5).unwrap();", True)]
+    for aname, attr_line, body, legal in cases:
+        for inner, rule in (("i32", "validate(greater = 0)"), ("f64", "validate(finite)")):
+            b = body.replace("try_new(5)", "try_new(5.0)") if inner == "f64" else body
+            text = ("pub mod y%d {\n    #![allow(dead_code, unused_imports, unused_variables)]\n"
+                    "    pub mod decl {\n        use nutype::nutype;\n        #[nutype(%s, derive(Debug))]\n        %s\n        pub struct T(%s);\n    }\n"
+                    "    use decl::T;\n    pub fn attack() { %s }\n}\n" % (n, rule, attr_line, inner, b))
+            out.append(("y%d" % n, text, not legal, {"shape": "int" if inner == "i32" else "float", "flags": "plain", "attack": aname, "where": "attribute below #[nutype]", "legal": legal}))
+            n += 1
     return out
 
 
